@@ -120,6 +120,15 @@ def rand_stmt(rnd, depth=0, names=NAMES, files=(), allow_ctl=True):
             else:
                 chunks.append(("s", rnd.choice(STRINGS)))
         st = apm.string(rnd.choice([".ascii", ".asciz", ".rad50"]), chunks)
+        if st.d == ".rad50" and rnd.random() < 0.5:
+            # codes and characters at the edges of the alphabet, in every position of a triple
+            chunks = []
+            for _ in range(rnd.randrange(1, 5)):
+                if rnd.random() < 0.5:
+                    chunks.append(("n", apm.num(rnd.choice([0, 1, 38, 39, 40, 41, 47, 63, 64, 255, -1]), rnd.choice([None, "d"]))))
+                else:
+                    chunks.append(("s", rnd.choice(["9", "99", "999", "Z9", "%", "$.%", " ", "A", "az", "ABCD"])))
+            st = apm.string(".rad50", chunks)
         st.quote = rnd.choice("\"'/")
     elif r < 0.62:
         st = apm.blk(rnd.choice([".blkb", ".blkw", ".align"]), rand_expr(rnd, 2, names))
